@@ -342,6 +342,52 @@ fn gen_case(rng: &mut Rng) -> Case {
         2 => Mode::File,
         _ => Mode::FileWithInclude,
     };
+    if rng.chance(1, 4) {
+        // one message for every failing line of the program: two errors then differ by position (line, file) only
+        fn mono(stmts: &mut Vec<Stmt>) {
+            for s in stmts.iter_mut() {
+                match s {
+                    Stmt::Fail(_, m) => *m = "m1".to_string(),
+                    Stmt::Raw(l) => {
+                        for head in ["trigger_error ", "x3 = trigger_error ", "assert_error ", "x2 = hfail ", "hfail "] {
+                            if l.starts_with(head) {
+                                *l = format!("{}m1", head);
+                                break;
+                            }
+                        }
+                    }
+                    Stmt::If { branches, els, .. } => {
+                        for (_, b) in branches.iter_mut() {
+                            mono(b);
+                        }
+                        if let Some(e) = els {
+                            mono(e);
+                        }
+                    }
+                    Stmt::While { body, .. } | Stmt::ForIn { body, .. } => mono(body),
+                    _ => {}
+                }
+            }
+        }
+        mono(&mut p.main);
+        for f in p.fns.iter_mut() {
+            mono(&mut f.body);
+        }
+    }
+    if mode == Mode::FileWithInclude && !p.fns.is_empty() && rng.chance(1, 3) {
+        // the same message at the same line NUMBER in two files, one error right after the other, then the queries:
+        // line 2 of the included file is the first body line of the first function, line 2 of the main file is its
+        // first statement (no arrays before it)
+        p.arrays.clear();
+        let f = p.fns[0].name.clone();
+        p.fns[0].body.insert(0, Stmt::Raw("hfail m1".to_string()));
+        let mut head = vec![Stmt::Raw("hfail m1".to_string()), Stmt::Raw(f.clone()), Stmt::Raw("ps = get_last_error_source".to_string()), Stmt::Raw("pl = get_last_error_line".to_string())];
+        if rng.chance(1, 2) {
+            head.swap(0, 1);
+        }
+        head.extend(p.main.drain(..));
+        p.main = head;
+    }
     let nested = if rng.chance(1, 2) { (0..1 + rng.usize(2)).map(|_| (rng.below(4) as u32, rng.below(10) as u32)).collect() } else { vec![] };
     Case { entropy: rng.next_u64(), program: p, mode, nested }
 }
